@@ -1708,6 +1708,13 @@ def run_pipeline(prop, tier, v, quick):
                         if quick and order in ("b-first",) and codes != C01_CODES[0]:
                             continue
                         fam.append((codes, appids, order))
+            # application ids that differ only in what a tidy mind might fold away: letter case (of the domain part, of the path),
+            # surrounding blanks, a doubled or trailing slash, a compatibility character - each is a different application id
+            for appids in ({"A": "Example.com/app", "B": "example.com/app"}, {"A": "APPID", "B": "appid"}, {"A": "appid", "B": "appid "},
+                           {"A": "lothar.com/wormhole/x", "B": "lothar.com/wormhole/X"}, {"A": "a.b/c", "B": "a.b//c"},
+                           {"A": "a.b/c", "B": "a.b/c/"}, {"A": "\uff41ppid", "B": "appid"}):
+                for order in (("a-first",) if quick else ("a-first", "late", "version-first")):
+                    fam.append((C01_CODES[0], appids, order))
             for (codes, appids, order) in fam:
                 tid += 1
                 try:
